@@ -311,6 +311,14 @@ func (f *Flow) runOne(fr *Frame, st0 string) []string {
 							}
 							continue
 						}
+						if ld, ok := v.(*ssa.UnOp); ok && ld.Op == token.MUL {
+							// package-level error variables are initialised by the package
+							// initialiser and never written again (C20/H3)
+							if g, isG := ld.X.(*ssa.Global); isG && typeShort(ld.Type()) == "error" && strings.HasPrefix(g.Name(), "Err") {
+								rs = append(rs, fmt.Sprintf("%d=nonnil", i))
+								continue
+							}
+						}
 						if id, idx, ok := callResultOf(v, fn); ok {
 							if val, ok := factOf(facts, id, idx); ok {
 								rs = append(rs, fmt.Sprintf("%d=%s", i, val))
